@@ -127,6 +127,25 @@ def run(ctx):
                               dict(refs=refs, queries=qs, steps=[list(x) for x in steps[:step + 1]], got=str(g)[:300]),
                               site='nn.LookupDB.lookup[custom]' if use_lookupdb else 'nn.SymdelDB.lookup[custom]')
                 break
+    # kdtree on two worker processes, several searches in one process with DIFFERENT sequences / distance functions / radii: each answer
+    # is that of its own arguments (workers started for an earlier search know nothing about this one)
+    for t in range(4 if ctx.quick else 40):
+        steps = []
+        for _ in range(rng.randint(2, 3)):
+            steps.append((rng.randrange(6), rng.choice([1, 2]), rng.choice([None, 0, 1, 2, 3, 6]), repertoire(rng, rng.randint(3, 20))))
+        outs = ctx.oracle.run([('api_brute_self_custom', [w, kk, None if m is None else Fraction(m), ss]) for w, kk, m, ss in steps])
+        for step, ((w, kk, m, ss), exp) in enumerate(zip(steps, outs)):
+            g = call_impl(lambda: nn.kdtree(list(ss), max_edits=kk, custom_distance=customs.make(w),
+                                            max_custom_distance=float('inf') if m is None else m, n_cpu=2))
+            ctx.case(nontrivial_key=('kdtree-2cpu-history', t, step) if exp and step else None)
+            ctx.count('kdtree_two_workers_history_call')
+            if g[0] != 'ok' or canon_triplets(g[1]) != canon_model(exp):
+                ctx.violation('property', 'kdtree(n_cpu=2) call %d in one process, custom distance "%s", max_edits=%d, max_custom_distance=%s on %s '
+                              'differs from the pairs inside both radii (earlier calls: %s): %s' % (
+                                  step, customs.NAMES[w], kk, m, ss[:8], [(customs.NAMES[a], b, c, len(d)) for a, b, c, d in steps[:step]], str(g)[:200]),
+                              dict(steps=[[a, b, None if c is None else str(c), d] for a, b, c, d in steps[:step + 1]], n_cpu=2, got=str(g)[:300]),
+                              site='nn.kdtree[custom,n_cpu=2,history]')
+                break
     import c14_tcrdist
     c14_tcrdist.run(ctx)
     ctx.assumptions += ['custom distances are symmetric with d(x,x) = 0 (stated domain)',
